@@ -16,6 +16,8 @@ pub mod c10;
 pub mod c11;
 pub mod c12;
 pub mod c13;
+pub mod c14;
+pub mod c15;
 pub mod curvegen;
 pub mod fxgen;
 pub mod c17;
@@ -37,6 +39,8 @@ pub fn make(id: &str) -> Option<Box<dyn Prop>> {
         "C11" => Some(Box::new(c11::C11::new())),
         "C12" => Some(Box::new(c12::C12::new())),
         "C13" => Some(Box::new(c13::C13::new())),
+        "C14" => Some(Box::new(c14::C14::new())),
+        "C15" => Some(Box::new(c15::C15::new())),
         "C17" => Some(Box::new(c17::C17::new())),
         "C18" => Some(Box::new(c18::C18::new())),
         "C19" => Some(Box::new(c19::C19::new())),
